@@ -121,6 +121,8 @@ def assignments(f, rng, dbx, quick):
         # given by value only (raw_value None): the encoder derives the day count from the date object
         for name, k in (("date_by_value_min", lo), ("date_by_value_mid", rng.randint(lo, hi)), ("date_by_value_1970", 0 if lo <= 0 <= hi else lo)):
             yield name, date(1970, 1, 1) + timedelta(days=k), None, "ok"
+        # what from_json() leaves in a message: the date as ISO text (here without its raw value) - refuse it or get it right
+        yield "date_as_iso_text", (date(1970, 1, 1) + timedelta(days=rng.randint(lo, hi))).isoformat(), None, "reject"
         yield "date_absent", None, None, "ok"
         yield "date_oversize", None, (1 << bits) + 5, "reject"
         yield "date_negative", None, -3, "reject"
@@ -141,6 +143,7 @@ def assignments(f, rng, dbx, quick):
                                  ("time_by_value_just_below_next_second", rng.randrange(86399), 999960)):
                 if lo <= Fraction(si) / r <= hi:
                     yield name, time(si // 3600, (si % 3600) // 60, si % 60, us), None, "ok"
+        yield "time_as_iso_text", "12:34:56", None, "reject"
         yield "time_absent", None, None, "ok"
         yield "time_oversize", None, float(((1 << bits) + 7) * r), "reject"
         if not f.signed:
@@ -296,12 +299,16 @@ def same_value(f, value, raw, bf):
     if t == "RESERVED":
         return bf.value == value, "reserved bits must be identical"
     if t == "DATE":
+        if raw is None and isinstance(value, str):
+            return bf.value is not None and bf.value.isoformat() == value, "the date given as text must come back (or be refused)"
         if raw is None and value is not None:
             return bf.value == value, "the date given must come back"
         if raw is None:
             return bf.raw_value is None and bf.value is None, "absent must stay absent"
         return bf.raw_value == raw, "day count must be identical"
     if t in ("TIME", "DURATION"):
+        if raw is None and isinstance(value, str):
+            return isinstance(bf.value, time) and bf.value.isoformat() == value, "the time given as text must come back (or be refused)"
         if raw is None and value is not None:
             want = value.hour * 3600 + value.minute * 60 + value.second
             exact = want + value.microsecond / 1e6
